@@ -103,6 +103,22 @@ def variant(m, rng, kind):
 def shrink_candidates(m, kind, rng):
     """smaller re-descriptions of the same kind: one mesh, one transposition / one swapped pair / one rotated triangle"""
     out = []
+    if kind in ("domain_order", "boundary_order", "interface_order", "mesh_order"):
+        key = {"domain_order": "domains", "interface_order": "interfaces", "mesh_order": "meshes"}.get(kind)
+        for _ in range(6):
+            v = gd.redescribe(m, rng, "identity")
+            if kind == "boundary_order":
+                cands = [q for q, (_, bs) in enumerate(v["domains"]) if len(bs) > 1]
+                if not cands: return []
+                q = rng.choice(cands); nme, bs = v["domains"][q]; i, j = rng.sample(range(len(bs)), 2); bs[i], bs[j] = bs[j], bs[i]
+                what = "domain line %s: boundaries %d and %d exchanged" % (nme, i, j)
+            else:
+                L = v[key]
+                if len(L) < 2: return []
+                i, j = rng.sample(range(len(L)), 2); L[i], L[j] = L[j], L[i]
+                what = "%s %d and %d exchanged in the declaration order" % (key, i, j)
+            out.append((v, what))
+        return out
     for k, (n, vs, ts) in enumerate(m["meshes"]):
         for _ in range(2):
             v = gd.redescribe(m, rng, "identity")
